@@ -4,6 +4,9 @@ C17 — property theorems, CV certificates (btok_cvc.c).  Model: ModelCVC.lean; 
 import Bee2V.C17.LemmasCVC
 namespace Bee2V.C17
 
+/-- a C string literal as octets -/
+def cstr' (s : String) : Bytes := s.toUTF8.toList
+
 /-- btokCVCCheck accepts exactly: both names valid (8..12 printable characters), both dates valid,
     from ≤ until, public key accepted by btokPubkeyVal. -/
 theorem cvcCheck_ok_iff (S : Sig) (c : Cvc) :
@@ -13,5 +16,189 @@ theorem cvcCheck_ok_iff (S : Sig) (c : Cvc) :
   unfold cvcCheck
   cases nameIsValid c.authority <;> cases nameIsValid c.holder <;> cases dateIsValid c.from_ <;>
     cases dateIsValid c.until_ <;> cases dateLeq c.from_ c.until_ <;> simp
+
+example : cvcCheck ⟨fun _ => (.ok, []), fun _ => .ok, fun _ _ => .ok, fun _ _ => (.ok, []), fun _ _ _ => .ok⟩
+    ⟨cstr' "BYCA0000", cstr' "BYCA1000", [], [2, 2, 0, 7, 0, 7], [2, 3, 0, 7, 0, 7], [], [], []⟩ = .ok := by decide +kernel
+
+/-- names: 8..12 characters, every one of them printable (PrintableString alphabet) -/
+theorem nameIsValid_iff (n : Bytes) :
+    nameIsValid n = true ↔ 8 ≤ n.length ∧ n.length ≤ 12 ∧ ∀ c ∈ n, Bee2V.C08.isPrintable c.toNat = true := by
+  unfold nameIsValid
+  rw [nameMin_eq, nameMax_eq]
+  simp only [Bool.and_eq_true, decide_eq_true_eq, List.all_eq_true, and_assoc]
+
+/-- dates: six octets, each a decimal digit, (2000 + YY, MM, DD) a date of the Gregorian calendar (C12) -/
+theorem dateIsValid_iff (d : Bytes) :
+    dateIsValid d = true ↔
+      ∃ d0 d1 d2 d3 d4 d5 : UInt8, d = [d0, d1, d2, d3, d4, d5] ∧
+        (d0 ≤ 9 ∧ d1 ≤ 9 ∧ d2 ≤ 9 ∧ d3 ≤ 9 ∧ d4 ≤ 9 ∧ d5 ≤ 9) ∧
+        Bee2V.C12.Spec.gregorian (2000 + (10 * d0.toNat + d1.toNat)) (10 * d2.toNat + d3.toNat) (10 * d4.toNat + d5.toNat) := by
+  unfold dateIsValid
+  constructor
+  · intro h
+    split at h
+    · rename_i d0 d1 d2 d3 d4 d5
+      exact ⟨d0, d1, d2, d3, d4, d5, rfl, (Bee2V.C12.tmDateIsValid2_iff _ _ _ _ _ _).mp h⟩
+    · cases h
+  · rintro ⟨d0, d1, d2, d3, d4, d5, rfl, h⟩
+    exact (Bee2V.C12.tmDateIsValid2_iff _ _ _ _ _ _).mpr h
+example : dateIsValid [2, 4, 0, 2, 2, 9] = true ∧ dateIsValid [2, 3, 0, 2, 2, 9] = false ∧
+    dateIsValid [2, 3, 0, 10, 0, 1] = false := by decide
+
+/-- the order used for validity periods is the order of the dates as big-endian numbers, i.e. chronological
+order for valid dates (tmDateLeq2 = memCmp ≤ 0) -/
+theorem dateLeq_iff (l r : Bytes) (h : l.length = r.length) : dateLeq l r = true ↔ beNat l ≤ beNat r :=
+  memLeq_iff l r h
+example : dateLeq [2, 3, 1, 2, 3, 1] [2, 4, 0, 1, 0, 1] = true ∧ dateLeq [2, 4, 0, 1, 0, 1] [2, 3, 1, 2, 3, 1] = false := by decide
+
+/-- btokCVCCheck2: content valid, authority EQUAL to the issuer's holder as whole strings (a prefix or an extension
+is a different name), issuer dates valid, issuer.from ≤ from ≤ issuer.until -/
+theorem cvcCheck2_ok_iff (S : Sig) (c ca : Cvc) :
+    cvcCheck2 S c ca = .ok ↔
+      cvcCheck S c = .ok ∧ c.authority = ca.holder ∧ dateIsValid ca.from_ = true ∧ dateIsValid ca.until_ = true ∧
+      dateLeq ca.from_ c.from_ = true ∧ dateLeq c.from_ ca.until_ = true := by
+  unfold cvcCheck2
+  by_cases h1 : cvcCheck S c = .ok
+  · by_cases h2 : c.authority = ca.holder
+    · simp only [h1, ne_eq, not_true_eq_false, if_false, h2, true_and]
+      cases dateIsValid ca.from_ <;> cases dateIsValid ca.until_ <;> cases dateLeq ca.from_ c.from_ <;>
+        cases dateLeq c.from_ ca.until_ <;> simp
+    · simp [h1, h2]
+  · simp [h1]
+
+theorem cvcCheck2_prefix_rejected (S : Sig) (c ca : Cvc) (x : UInt8) (suffix : Bytes)
+    (h : ca.holder = c.authority ++ x :: suffix ∨ c.authority = ca.holder ++ x :: suffix) :
+    cvcCheck2 S c ca ≠ .ok := by
+  intro hok
+  have he := ((cvcCheck2_ok_iff S c ca).mp hok).2.1
+  rcases h with h | h
+  · rw [he] at h
+    have := congrArg List.length h
+    simp at this
+  · rw [← he] at h
+    have := congrArg List.length h
+    simp at this
+
+/-- the date argument of btokCVCVal / Val2: absent, or valid and inside [from, until] -/
+theorem dateCheck_ok_iff (c : Cvc) (date : Option Bytes) :
+    dateCheck c date = .ok ↔
+      date = none ∨ ∃ d, date = some d ∧ dateIsValid d = true ∧ dateLeq c.from_ d = true ∧ dateLeq d c.until_ = true := by
+  unfold dateCheck
+  cases date with
+  | none => simp
+  | some d =>
+    simp only [reduceCtorEq, Option.some.injEq, exists_eq_left', false_or]
+    cases dateIsValid d <;> cases dateLeq c.from_ d <;> cases dateLeq d c.until_ <;> simp
+
+/-- CHAIN LINK (btokCVCVal): ERR_OK ⇔ the issuer certificate parses, the certificate parses AND its signature
+verifies under the issuer's public key (inside btokCVCUnwrap), names / validity windows line up (Check2), and the
+date (if given) is valid and inside the certificate's period. -/
+theorem cvcVal_ok_iff (S : Sig) (cert certa : Bytes) (date : Option Bytes) :
+    cvcVal S cert certa date = .ok ↔
+      ∃ ca c, cvcUnwrap S certa .none = .ok ca ∧ cvcUnwrap S cert (.key ca.pubkey) = .ok c ∧
+        cvcCheck2 S c ca = .ok ∧ dateCheck c date = .ok := by
+  constructor
+  · intro h
+    unfold cvcVal at h
+    cases h1 : cvcUnwrap S certa .none with
+    | error e => rw [h1] at h; exact absurd h (cvcUnwrap_err S certa _ e h1)
+    | ok ca =>
+      rw [h1] at h; dsimp only at h
+      cases h2 : cvcUnwrap S cert (.key ca.pubkey) with
+      | error e => rw [h2] at h; exact absurd h (cvcUnwrap_err S cert _ e h2)
+      | ok c =>
+        rw [h2] at h; dsimp only at h
+        by_cases h3 : cvcCheck2 S c ca = .ok
+        · rw [if_neg (by simp [h3])] at h; exact ⟨ca, c, rfl, h2, h3, h⟩
+        · rw [if_pos h3] at h; exact absurd h h3
+  · rintro ⟨ca, c, h1, h2, h3, h4⟩
+    unfold cvcVal
+    rw [h1]; dsimp only; rw [h2]; dsimp only; rw [if_neg (by simp [h3])]; exact h4
+
+/-- btokCVCVal2: the same with the issuer given by its content -/
+theorem cvcVal2_ok_iff (S : Sig) (cert : Bytes) (ca : Cvc) (date : Option Bytes) :
+    (cvcVal2 S cert ca date).1 = .ok ↔
+      ∃ c, cvcUnwrap S cert (if ca.pubkey.length = 0 then .foreign else .key ca.pubkey) = .ok c ∧
+        cvcCheck2 S c ca = .ok ∧ dateCheck c date = .ok := by
+  constructor
+  · intro h
+    unfold cvcVal2 at h
+    cases h2 : cvcUnwrap S cert (if ca.pubkey.length = 0 then .foreign else .key ca.pubkey) with
+    | error e => rw [h2] at h; exact absurd h (cvcUnwrap_err S cert _ e h2)
+    | ok c =>
+      rw [h2] at h; dsimp only at h
+      by_cases h3 : cvcCheck2 S c ca = .ok
+      · rw [if_neg (by simp [h3])] at h; exact ⟨c, rfl, h3, h⟩
+      · rw [if_pos h3] at h; exact absurd h h3
+  · rintro ⟨c, h2, h3, h4⟩
+    unfold cvcVal2
+    rw [h2]; dsimp only; rw [if_neg (by simp [h3])]; exact h4
+
+/-- WHAT IS VERIFIED: when btokCVCUnwrap succeeds with a verification key `pk`, the certificate is
+SEQ[7F21]{ body, OCT[5F37] sig } read with nothing left over, `body` are exactly the `t2` octets of the certificate
+decoded by btokCVCBodyDec, the signature found in the certificate was checked by btokVerify over exactly these octets
+under `pk`, and the decoded content passes btokCVCCheck. -/
+theorem cvcUnwrap_verified (S : Sig) (cert pk : Bytes) (c : Cvc) (h : cvcUnwrap S cert (.key pk) = .ok c) :
+    ∃ a t c0 t2 t3, Bee2V.C08.derTSEQDecStart cert 0x7F21 = .ok (a, t) ∧ bodyDec (cert.drop t) = .ok (c0, t2) ∧
+      c = { c0 with sig := c.sig } ∧
+      Bee2V.C08.derTOCTDec2 (cert.drop (t + t2)) 0x5F37 (if pk.length = 48 then 34 else pk.length - pk.length / 4) = .ok (c.sig, t3) ∧
+      cert.length ≤ t + t2 + t3 ∧ Bee2V.C08.derTSEQDecStop (t + t2 + t3) a = .ok () ∧
+      S.verify ((cert.drop t).take t2) c.sig pk = .ok ∧ cvcCheck S c = .ok := by
+  unfold cvcUnwrap at h
+  dsimp only at h
+  split at h
+  · cases h
+  · unfold cvcUnwrap.go at h
+    dsimp only at h
+    cases hs : ofR (Bee2V.C08.derTSEQDecStart cert 0x7F21) .badFormat with
+    | error e => rw [hs] at h; cases h
+    | ok r =>
+      obtain ⟨a, t⟩ := r
+      rw [hs] at h; dsimp only at h
+      cases hb : ofR (bodyDec (cert.drop t)) .badFormat with
+      | error e => rw [hb] at h; cases h
+      | ok r =>
+        obtain ⟨c0, t2⟩ := r
+        rw [hb] at h; dsimp only [sigLenOf] at h
+        cases ho : ofR (Bee2V.C08.derTOCTDec2 (cert.drop (t + t2)) 0x5F37 (if pk.length = 48 then 34 else pk.length - pk.length / 4)) .badFormat with
+        | error e => rw [ho] at h; cases h
+        | ok r =>
+          obtain ⟨sig, t3⟩ := r
+          rw [ho] at h; dsimp only at h
+          split at h
+          · cases h
+          · rename_i hv
+            cases hst : ofR (Bee2V.C08.derTSEQDecStop (t + t2 + t3) a) .badFormat with
+            | error e => rw [hst] at h; cases h
+            | ok u =>
+              rw [hst] at h; dsimp only at h
+              split at h
+              · cases h
+              · rename_i hlen
+                split at h
+                · cases h
+                · rename_i hck
+                  cases h
+                  refine ⟨a, t, c0, t2, t3, ofR_ok hs, ofR_ok hb, rfl, ofR_ok ho, ?_, ofR_ok hst, ?_, ?_⟩
+                  · have : ¬ (cert.length - (t + t2 + t3) ≠ 0) := hlen
+                    omega
+                  · simpa using hv
+                  · simpa using hck
+
+/-- ANY ALTERED SIGNED OCTET ⇒ Verify is evaluated on a DIFFERENT message: two octet strings of the same length that
+differ at an offset inside the body [t, t + t2) have different body slices — so an altered certificate that still
+parses with the same layout passes only if the issuer's signature verifies over a message it was not made for
+(soundness of the signature scheme, C02 `verify_exact`). -/
+theorem altered_body_differs (cert cert' : Bytes) (t t2 i : Nat) (hi : t ≤ i) (hi2 : i < t + t2) (hl : i < cert.length)
+    (hl' : i < cert'.length) (hne : cert[i]? ≠ cert'[i]?) :
+    (cert.drop t).take t2 ≠ (cert'.drop t).take t2 := by
+  intro h
+  apply hne
+  have e1 : ((cert.drop t).take t2)[i - t]? = cert[i]? := by
+    rw [List.getElem?_take_of_lt (by omega), List.getElem?_drop]; congr 1; omega
+  have e2 : ((cert'.drop t).take t2)[i - t]? = cert'[i]? := by
+    rw [List.getElem?_take_of_lt (by omega), List.getElem?_drop]; congr 1; omega
+  rw [← e1, ← e2, h]
+example : ([1, 2, 3, 4, 5] : Bytes)[2]? ≠ ([1, 2, 9, 4, 5] : Bytes)[2]? := by decide
 
 end Bee2V.C17
